@@ -409,6 +409,8 @@ func c06CheckPair(c *eng.Ctx, fn *ssa.Function, iface *types.Interface, q, b ssa
 }
 
 func c06(c *eng.Ctx) {
+	c.Rule("R5", "one bucket per schema name: the per-schema limiter table is keyed by the schema name verbatim (two schemas whose names differ, e.g. only by case, never share a bucket)", 3)
+	checkSchemaTableKeys(c, "R5")
 	iface := fcIface(c)
 	if iface == nil {
 		return
